@@ -73,6 +73,16 @@ func checkValid(b []byte) (string, bool) {
 	if err, p := integrityErr(b, true); err != nil || p != nil {
 		return fmt.Sprintf("valid file rejected by CheckIntegrity(true): err=%v panic=%v", err, p), false
 	}
+	// the verdict on a valid file does not depend on how the reader splits it
+	for _, ch := range gen.StandardChunkings()[1:] {
+		var derr, ierr error
+		if p := oracle.Catch(func() {
+			_, derr = fit.Decode(gen.NewReader(b, ch))
+			ierr = fit.CheckIntegrity(gen.NewReader(b, ch), false)
+		}); p != nil || derr != nil || ierr != nil {
+			return fmt.Sprintf("valid file rejected when read with chunking %v: Decode err=%v CheckIntegrity err=%v panic=%v", ch, derr, ierr, p), false
+		}
+	}
 	return "", true
 }
 
